@@ -109,7 +109,10 @@ def execute(args):
         finally:
             w.active = False
         if entry not in ('read_nonblocking', 'waitnoecho') and not out.startswith(('ERR', 'BLOCK')):
-            consumed = len(child.before or b'') + (len(child.after) if out == 'match' else 0) + len(child.buffer)
+            if out == 'match':
+                consumed = len(child.before or b'') + len(child.after) + len(child.buffer)
+            else:
+                consumed = len(child.before or b'')          # all pending text = everything read by this call
         rec['obs'] = {'outcome': out, 'elapsed': int(round((w.clock.now - t0) / tick)), 'consumed': consumed,
                       'readable': readable, 'elapsed_raw': round(w.clock.now - t0, 4)}
     except Exception:
